@@ -269,7 +269,9 @@ func rewriteRanges(fset *token.FileSet, file *ast.File, info *types.Info, counte
 			}
 			pre = append(pre, &ast.AssignStmt{Lhs: lhs, Tok: tok, Rhs: rhs})
 		}
-		body := &ast.BlockStmt{List: append(pre, rs.Body.List...)}
+		// the original body keeps its own block: it may declare a variable with the
+		// name of the range variable again (`room := room`)
+		body := &ast.BlockStmt{List: append(pre, rs.Body)}
 		loop := &ast.RangeStmt{
 			Key:   ast.NewIdent("_"),
 			Value: ast.NewIdent(kName),
